@@ -25,7 +25,8 @@ def corpus():
         # ... or only in the pre/post-policy flag
         "C 0;I 0;U 0 0 0;U 0 2 0;R 0 0 0 3 1 0 -;R 0 2 0 4 1 0 -;Q 0 1",
         "C 0;C 1;I 0;I 1;U 0 0 0;U 1 0 0;R 0 0 0 1 1 0 -;R 1 0 0 2 1 0 -;X 0;Q 0 1",
-    ]
+        # the Peer Down of one peer withdraws that peer's routes and nobody else's, whatever its reason octet
+    ] + [f"C 0;I 0;U 0 0 0;U 0 3 0;R 0 0 0 3 1,2 0 -;R 0 3 0 4 1 0 -;D 0 0 {r};Q 0 1;Q 0 2" for r in (0, 1, 2, 3, 4, 6, 200)]
 
 
 ENGINES = [{"name": "pipe", "gen": gen, "corpus": corpus, "nontrivial": nontrivial, "classify": pipegen.classify, "shards": 12}]
